@@ -119,7 +119,7 @@ def run_benign(rep, prop):
         finally:
             shutil.rmtree(w, ignore_errors=True)
     out = []
-    with cf.ThreadPoolExecutor(8) as ex:
+    with cf.ThreadPoolExecutor(14) as ex:
         for name, res in ex.map(one, diffs):
             out.append({"refactoring": name, "result": res})
             if res.startswith("ALARM"):
